@@ -75,7 +75,7 @@ func NewSpecDB() *SpecDB {
 
 var clauseKW = map[string]bool{"requires": true, "ensures": true, "modifies": true, "invariant": true,
 	"decreases": true, "increases": true, "callspec": true, "ghostvar": true, "check": true, "effects": true, "thread": true, "acquires": true, "releases": true,
-	"assumes": true, "opaque": true, "panics": true, "funcspec": true, "inline": true, "havoc": true, "trusted": true, "asserts": true, "unroll": true, "nilreceiver": true, "ghostinc": true, "allocbound": true}
+	"assumes": true, "opaque": true, "panics": true, "funcspec": true, "inline": true, "havoc": true, "trusted": true, "asserts": true, "unroll": true, "nilreceiver": true, "ghostinc": true, "allocbound": true, "lockinv": true}
 var blockKW = map[string]bool{"abstract": true, "pure": true, "func": true, "loop": true, "assume": true, "lemma": true,
 	"guarded": true, "ghost": true, "global": true}
 
@@ -340,7 +340,7 @@ func (db *SpecDB) Finish() error {
 		}
 		for _, c := range b.Clauses {
 			switch c.Kind {
-			case "requires", "ensures", "invariant", "decreases", "increases", "assumes", "panics", "asserts", "allocbound":
+			case "requires", "ensures", "invariant", "decreases", "increases", "assumes", "panics", "asserts", "allocbound", "lockinv":
 				e, err := ParseExpr(c.Text)
 				if err != nil {
 					return fmt.Errorf("%s:%d: %v (in %q)", c.File, c.Line, err, c.Text)
